@@ -27,6 +27,7 @@ inductive G where
   | un (op : UnOp) (x : G)
   | bin (op : BinOp) (x y : G)
   | sel (c x y : G)
+  | falseLike (x : G)      -- `Expand(Constant(False), Shape(x))`: an all-false mask of `x`'s shape
 deriving DecidableEq, Repr, Inhabited
 
 /-- ONNX `TensorProto.DataType` codes of the integer dtypes. -/
@@ -117,6 +118,7 @@ def eval (env : List SV) : G → Option SV
   | .un op x => (eval env x).bind (evalUn op)
   | .bin op x y => (eval env x).bind (fun a => (eval env y).bind (fun b => evalBin op a b))
   | .sel c x y => evalSel (eval env c) (eval env x) (eval env y)
+  | .falseLike x => (eval env x).map (fun _ => .b false)
 
 def UnOp.render : UnOp → String
   | .cast k => s!"Cast[to={k}]" | .neg => "Neg" | .abs => "Abs" | .bnot => "BitwiseNot" | .not => "Not"
@@ -132,11 +134,14 @@ def BinOp.render : BinOp → String
 def G.render : G → String
   | .inp 0 => "a"
   | .inp 1 => "b"
+  | .inp 2 => "a_null"
+  | .inp 3 => "b_null"
   | .inp i => s!"in{i}"
   | .const code v => s!"(Constant[{code}:{v}])"
   | .un op x => s!"({op.render} {x.render})"
   | .bin op x y => s!"({op.render} {x.render} {y.render})"
   | .sel c x y => s!"(Where {c.render} {x.render} {y.render})"
+  | .falseLike x => s!"(FalseLike {x.render})"
 
 /-! ## the graph shapes of each function -/
 
@@ -236,6 +241,25 @@ def gterms (fn : String) (t : IType) : List G :=
   | "remainder" =>
       (viaI64.map (fun cv => (none :: (widerCodes t).map some).map (fun wv => remTerm t cv wv))).flatten
   | _ => []
+
+/-! ## null masks of the element-wise functions on nullable operands
+
+Inputs of the mask graph: `inp 0/1` = the operands' values (only their *shape* can matter, through
+`falseLike`), `inp 2/3` = the operands' null masks. -/
+
+def aNull : G := .inp 2
+def bNull : G := .inp 3
+
+/-- Accepted graphs of the result's null mask for a binary function; `an`/`bn`: is the operand nullable. -/
+def nullTerms2 (an bn : Bool) : List G :=
+  match an, bn with
+  | true, true => [.bin .or aNull bNull]
+  | true, false => [.bin .or aNull (.falseLike b), aNull]
+  | false, true => [.bin .or (.falseLike a) bNull, bNull]
+  | false, false => []
+
+/-- Accepted graphs of the result's null mask for a unary function on a nullable operand. -/
+def nullTerms1 : List G := [aNull, .bin .or aNull aNull]      -- the second form: `square` = `multiply(x, x)`
 
 /-- Acceptable terms at `bool`. -/
 def gtermsBool (fn : String) : List G :=
